@@ -24,7 +24,8 @@ RULE = (
     "4096 + 65536 three/four-digit hex strings enumerated, (channels) each of red/green/blue/alpha written with every "
     "value 0..255 on fixed colours, (sampled) 6/8-digit hex, rgb()/rgba() with integers in and out of range, "
     "percentages incl. fractional and out of range, hsl()/hsla() with hues in -1080..1080, optional alpha, and "
-    "accessor histories of up to 6 setter calls on generated 32-bit colours. Non-trivial = anything but one of the "
+    "accessor histories of up to 6 setter calls on generated 32-bit colours; the integer, positional and keyword forms "
+    "of the constructor. Non-trivial = anything but one of the "
     "16 basic keywords in lower case / a non-grey colour for accessor histories; distinct by the case."
 )
 ASSUMPTIONS = [
@@ -38,7 +39,8 @@ ASSUMPTIONS = [
     "previous (h, s, l) with the written component replaced, alpha unchanged; hue is in degrees as the getter returns it",
 ]
 TOLERANCES = {"channel (percent/hsl)": 1, "alpha": 0.5}
-MANDATORY_LABELS = {"quick": ["form:kw", "form:hex3", "form:hex4", "form:hex6", "form:hex8", "form:rgb", "form:rgba", "form:rgbp", "form:hsl", "form:hsla", "form:none", "set:red", "set:green", "set:blue", "set:alpha", "set:opacity", "set:hue", "set:saturation", "set:lightness", "set:rgb", "set:argb", "set:rgba", "set:bgr"]}
+CTOR_FORMS = ["int", "rgb3", "rgb4", "kw:red..alpha", "kw:r,g,b", "kw:rgb", "kw:bgr", "kw:argb", "kw:rgba", "text+opacity", "copy"]
+MANDATORY_LABELS = {"quick": ["form:kw", "form:hex3", "form:hex4", "form:hex6", "form:hex8", "form:rgb", "form:rgba", "form:rgbp", "form:hsl", "form:hsla", "form:none", "set:red", "set:green", "set:blue", "set:alpha", "set:opacity", "set:hue", "set:saturation", "set:lightness", "set:rgb", "set:argb", "set:rgba", "set:bgr"] + ["ctor:%s" % f for f in CTOR_FORMS]}
 MANDATORY_LABELS["thorough"] = MANDATORY_LABELS["quick"]
 
 
@@ -101,7 +103,7 @@ def join_args(d, name, args):
 
 
 def decode(d):
-    kind = d.choice(["hex6", "hex8", "rgb", "rgb", "rgbp", "rgbp", "hsl", "hsl", "hsl", "acc", "acc", "acc", "hexrt"])
+    kind = d.choice(["hex6", "hex8", "rgb", "rgb", "rgbp", "rgbp", "hsl", "hsl", "hsl", "acc", "acc", "acc", "hexrt", "ctor", "ctor"])
     if kind == "hex6":
         s = "".join(d.choice(HEXD) for _ in range(6))
         return {"k": "hex", "text": "#" + (s.upper() if d.bool() else s)}
@@ -124,6 +126,10 @@ def decode(d):
         return {"k": "hsl", "h": h, "s": s, "l": l, "alpha": a, "text": join_args(d, "hsla" if (a is not None and d.chance(7, 8)) else "hsl", [h, s + "%", l + "%"] + ([a] if a is not None else []))}
     if kind == "hexrt":
         return {"k": "acc", "value": d.below(2 ** 32), "ops": []}
+    if kind == "ctor":
+        # the integer and keyword forms of the constructor
+        form = d.choice(CTOR_FORMS)
+        return {"k": "ctor", "form": form, "r": d.int(0, 255), "g": d.int(0, 255), "b": d.int(0, 255), "a": d.int(0, 255) if d.chance(6, 8) else d.choice([0, 255, 128])}
     ops = []
     for _ in range(d.int(1, 6)):
         name = d.choice(["red", "green", "blue", "alpha", "opacity", "hue", "saturation", "lightness", "rgb", "rgba", "argb", "bgr"])
@@ -144,8 +150,55 @@ def decode(d):
     return {"k": "acc", "value": value, "ops": ops}
 
 
+def check_ctor(case):
+    """every documented way to hand numbers to Color(...) denotes the same colour as the hex text of those numbers"""
+    se = lib.L()
+    o = core.Obs()
+    form, r, g, b, a = case["form"], case["r"], case["g"], case["b"], case["a"]
+    o.label("ctor:%s" % form)
+    judged_alpha = True
+    want_a = a
+    if form == "int":
+        c = se.Color((r << 16) | (g << 8) | b)
+        judged_alpha = False  # the rgb packing carries no alpha (see ASSUMPTIONS)
+    elif form == "rgb3":
+        c = se.Color(r, g, b)
+        want_a = 255
+    elif form == "rgb4":
+        c = se.Color(r, g, b, a)
+    elif form == "kw:red..alpha":
+        c = se.Color(red=r, green=g, blue=b, alpha=a)
+    elif form == "kw:r,g,b":
+        c = se.Color(r=r, g=g, b=b)
+        judged_alpha = False
+    elif form == "kw:rgb":
+        c = se.Color(rgb=(r << 16) | (g << 8) | b)
+        judged_alpha = False
+    elif form == "kw:bgr":
+        c = se.Color(bgr=(b << 16) | (g << 8) | r)
+        judged_alpha = False
+    elif form == "kw:argb":
+        c = se.Color(argb=(a << 24) | (r << 16) | (g << 8) | b)
+    elif form == "kw:rgba":
+        c = se.Color(rgba=(r << 24) | (g << 16) | (b << 8) | a)
+    elif form == "text+opacity":
+        c = se.Color("#%02x%02x%02x" % (r, g, b), a / 255.0)
+    else:
+        src = se.Color("#%02x%02x%02x%02x" % (r, g, b, a))
+        c = se.Color(src)
+        if not (c == src) or c is src:
+            return o.violation("ctor:copy", "Color(Color(#%02x%02x%02x%02x)) = %r" % (r, g, b, a, rgba_of(c)))
+    got = rgba_of(c)
+    if tuple(got[:3]) != (r, g, b):
+        return o.violation("ctor:%s" % form, "Color via %s with r,g,b,a = %r gives %r" % (form, (r, g, b, a), got))
+    if judged_alpha and abs(got[3] - want_a) > 1:
+        return o.violation("ctor:%s:alpha" % form, "Color via %s with r,g,b,a = %r gives alpha %r" % (form, (r, g, b, a), got[3]))
+    o.nontrivial = not (r == g == b)
+    return o.ok()
+
+
 def parts(tier):
-    n = 6000 if tier == "quick" else 60000
+    n = 20000 if tier == "quick" else 60000
     return [
         core.Part("keywords", "exhaustive", keyword_cases),
         core.Part("hex3", "exhaustive", hex3_cases),
@@ -171,6 +224,8 @@ def check(case):
     k = case["k"]
     if k == "acc":
         return check_accessors(case)
+    if k == "ctor":
+        return check_ctor(case)
     se = lib.L()
     o = core.Obs()
     if k == "none":
